@@ -11,7 +11,8 @@ import itertools
 
 SIG = {
     'f': 'ss', 'g': 'ss', 'h': 'sss',
-    'var': 's', 'app': 'cc', 'lam': 'bc', 'k': 'ss', 'u': 'c', 'j': 'ss',
+    'w': 'ssss',
+    'var': 's', 'app': 'cc', 'lam': 'bc', 'k': 'ss', 'u': 'c', 'j': 'ss', 't3': 'sss', 's3': 'sss', 'm3': 'sss',
 }
 
 def canon(t, env=None, depth=0):
